@@ -247,7 +247,7 @@ func (h UnprotectedHeader) MarshalCBOR() ([]byte, error) {
 	if err := validateHeaderParameters(h, false); err != nil {
 		return nil, fmt.Errorf("unprotected header: %w", err)
 	}
-	return encMode.Marshal(map[any]any(h))
+	return encModeWithoutTags.Marshal(map[any]any(h))
 }
 
 // UnmarshalCBOR decodes a CBOR map object into UnprotectedHeader.
